@@ -242,10 +242,19 @@ func (p *poller) setRW(fd int, slot *Slot, flag PollerEvent) error {
 		oldEvents := *events
 		*events |= flag
 
+		var err error
 		if oldEvents == 0 {
-			return p.add(fd, createEvent(*events, slot))
+			err = p.add(fd, createEvent(*events, slot))
+		} else {
+			err = p.modify(fd, createEvent(*events, slot))
 		}
-		return p.modify(fd, createEvent(*events, slot))
+		if err != nil {
+			// Nothing was registered: do not count it as pending and do not pretend the interest is set,
+			// otherwise RunPending never returns and a later SetRead/SetWrite is silently skipped.
+			p.pending--
+			*events = oldEvents
+		}
+		return err
 	}
 	return nil
 }
